@@ -18,6 +18,68 @@ def generate(rng, tier):
     n = 160 if tier == "quick" else 4000
     for _ci in range(n):
         yield gen_case(rng)
+    for _ci in range(6 if tier == "quick" else 120):
+        yield gen_stuck(rng)
+
+
+def gen_stuck(rng):
+    """The gate after a refused call: a consistent, fully specified sequence; one of the producers is refused late (a
+    voltage outside its channel range, a sequencing value outside the instrument range) or early; then the sequence is
+    made inconsistent (another channel set / another rate at one position, through addElement or through the element
+    handle) and every producer must refuse it - whatever the refused call left behind."""
+    regs = Regs()
+    SR = rng.choice([100, 1000.0, 1e4])
+    N = rng.randint(6, 30)
+    chans = rng.sample(CHAN_POOL, rng.randint(1, 2))
+    kinds = {c: "bp" for c in chans}
+    s = regs.S()
+    prog = [("SNew", s), ("SSetSR", s, SR)]
+    npos = rng.randint(2, 3)
+    for pos in range(1, npos + 1):
+        e, ops = safe_element(rng, regs, SR, N, list(chans), kinds=kinds)
+        prog += ops + [("SAddElement", s, pos, e)]
+    for c in chans:
+        prog += [("SSetAmp", s, c, 2), ("SSetOff", s, c, 0)]
+    prog += [("OSCheck", s), ("OSForge", s, True, True, False)]
+    refusal = rng.choice(["range", "range", "sequencing", "none"])
+    if refusal == "range":
+        prog.append(("SSetAmp", s, chans[0], 0.0009765625))
+    elif refusal == "sequencing":
+        prog.append(("SSetSequencing", s, 1, "nrep", 70000))
+    exports = [("OSAwg", s, ("slice", None, None, None)), ("OSSeqx", s, False), ("OSSeqx", s, True)]
+    rng.shuffle(exports)
+    prog += exports[:rng.randint(1, 3)]
+    if refusal == "range":
+        prog.append(("SSetAmp", s, chans[0], 2))
+    elif refusal == "sequencing":
+        prog.append(("SSetSequencing", s, 1, "nrep", 1))
+    # now break it
+    how = rng.choice(["handle_chan", "handle_chan", "add_chan", "add_rate"])
+    r = regs.B()
+    pos = rng.randint(1, npos)
+    SR2 = SR * 2 if how == "add_rate" else SR
+    prog += [("BNew", r), ("BInsert", r, -1, "ramp", [0, 0.125], N / SR2, "h"), ("BSetSR", r, SR2)]
+    if how == "handle_chan":
+        prog.append(("SElemAddBp", s, pos, 97, r))
+    else:
+        e2 = regs.E()
+        prog.append(("ENew", e2))
+        for c in (chans + [97] if how == "add_chan" else chans):
+            prog.append(("EAddBp", e2, c, r))
+        prog.append(("SAddElement", s, pos, e2))
+    t = regs.S()
+    prog += [("SNew", t), ("SSetSR", t, SR)]
+    e, ops = safe_element(rng, regs, SR, N, list(chans), kinds=kinds)
+    prog += ops + [("SAddElement", t, 1, e)]
+    for c in chans:
+        prog += [("SSetAmp", t, c, 2), ("SSetOff", t, c, 0)]
+    u, v, w = regs.S(), regs.S(), regs.S()
+    prog += [("OSCheck", s), ("OSChannels", s), ("OSForge", s, rng.random() < 0.5, True, False), ("SAdd", s, t, u), ("SAdd", t, s, v),
+             ("TRepeat", s, [1], [chans[0]], ["zzz"], ["duration"], [[0.5]], w),
+             ("OSAwg", s, ("slice", None, None, None)), ("OSSeqx", s, False), ("OSSeqx", s, True)]
+    return {"prog": prog, "kind": "stuck-" + refusal + "-" + how, "stuck": True, "n_setup": 0, "nent": npos, "order": list(range(1, npos + 1)),
+            "entries": {}, "deviation": how, "missing": None, "have_sr": True, "long": False, "chans": [str(c) for c in chans],
+            "positions": list(range(1, npos + 1))}
 
 
 def gen_case(rng):
@@ -116,6 +178,25 @@ def oracle(case, impl):
     from harness import lang
     out = []
     prog = case["prog"]
+    if case.get("stuck"):
+        # everything after the last SAddElement / SElemAddBp into the first sequence is asked of an inconsistent sequence
+        s = prog[0][1]
+        last = max(i for i, op in enumerate(prog) if op[0] in ("SElemAddBp", "SAddElement") and op[1] == s)
+        if isinstance(impl[last], lang.Err):
+            return out
+        first = [r for op, r in zip(prog[:last], impl[:last]) if op[0] == "OSCheck"]
+        if first and first[0] is not True:
+            out.append(f"checkConsistency returned {first[0]!r} for the consistent sequence it was built as")
+        for i in range(last + 1, len(prog)):
+            op, r = prog[i], impl[i]
+            if op[0] == "OSCheck" and op[1] == s:
+                if r is not False and not isinstance(r, lang.Err):
+                    out.append(f"checkConsistency returned {r!r} after the sequence was made inconsistent ({case['kind']})")
+            elif (op[0] in ("OSChannels", "OSForge", "OSAwg", "OSSeqx") and op[1] == s) or (op[0] == "SAdd" and s in op[1:3]) or \
+                    (op[0] == "TRepeat" and op[1] == s):
+                if not isinstance(r, lang.Err):
+                    out.append(f"{op[0]} produced output on a sequence made inconsistent after a refused call ({case['kind']})")
+        return out[:4]
     res = {}
     for op, r in zip(prog, impl):
         res.setdefault(op[0], []).append(r)
@@ -163,6 +244,8 @@ def oracle(case, impl):
 
 
 def nontrivial_key(case, impl):
+    if case.get("stuck"):
+        return ("stuck", case["kind"], tuple(o[0] for o in case["prog"][-14:]))
     if case["nent"] < 2:
         return None
     permuted = case["order"] != sorted(case["order"])
